@@ -81,8 +81,22 @@ def gen_case(rng, big=False) -> Case:
     shape = rng.choice(["cooldown", "cooldown", "mixed", "mixed", "transport", "socket", "floor"])
     cd = rng.choice([5, 5, 2, 1, 60, 0, -1, 3600])
     hdiff = rng.choice([0, 1, 2, 3, 3, 6, 10])
-    ops = [f"cfg cd={cd} hdiff={hdiff}"]
     peers = [f"p{i+1}" for i in range(rng.choice([1, 2, 3]))]
+    # Config::bootstrap_nodes: some of the claimed peer ids are configured bootstrap peers, with a pinned public
+    # identity (valid, rarely invalid) or without one
+    pinned = {}
+    bs = []
+    if rng.random() < 0.45:
+        for p in rng.sample(peers, rng.randint(1, len(peers))):
+            r = rng.random()
+            if r < 0.7:
+                pinned[p] = rng.choice(VALID_PUBS)
+                bs.append(f"{p}:{pinned[p]}")
+            elif r < 0.8:
+                bs.append(f"{p}:{rng.choice(INVALID_PUBS)}")
+            else:
+                bs.append(f"{p}:-")
+    ops = [f"cfg cd={cd} hdiff={hdiff}" + (f" bs={','.join(bs)}" if bs else "")]
     now = 0
     last_ok = {}
 
@@ -94,6 +108,8 @@ def gen_case(rng, big=False) -> Case:
         return rng.choice(["hs", "hs", "hs", "th", "th", "sock"]) if rng.random() < 0.9 else "sock"
 
     def emit(p, pub, tok):
+        if p in pinned and pub in VALID_PUBS and rng.random() < 0.5:
+            pub = pinned[p]                       # claim the bootstrap peer's id with its (public) pinned key
         k = kind()
         if k == "th":
             ops.append(f"th {p} {pub} {tok} {rng.choice([4, 4, 3, 1, 0, 9])}")
